@@ -124,7 +124,20 @@ fn udp_config(uring: bool, max_response_peers: usize, max_scrape_torrents: u8, v
                         detail: json!({"tracker": "udp", "backend": backend, "config": cfg}),
                     });
                 }
-                // control unanswered too: the request did not fit (request side: C06)
+                // control unanswered too: the request itself did not fit the receive buffer, although it is the longest scrape
+                // this configuration allows (max_scrape_torrents hashes)
+                if !control {
+                    let alive = udp_rt(&sock, dst, &ann(60_003, 800_002, 1, 2), v4, 800_002).is_some();
+                    if alive {
+                        f.push(Finding {
+                            sig: format!("udp/{}/scrape-request-dropped", backend),
+                            what: format!("[udp {} {}] configuration max_scrape_torrents={} accepted at start-up; a scrape of exactly {} hashes ({} bytes) gets no reply, and neither does another request of the same length, while a small announce is answered: the receive buffer does not hold the longest scrape the configuration allows", backend, fam, max_scrape_torrents, n, req.len()),
+                            detail: json!({"tracker": "udp", "backend": backend, "family": fam, "config": cfg}),
+                        });
+                    } else {
+                        machinery_failure("udp tracker stopped answering");
+                    }
+                }
             }
         }
     }
@@ -361,9 +374,13 @@ pub fn main(args: &Args) -> ! {
                 jobs.push(Job::Udp(uring, l, 70, true));
             }
         }
-        let ss: Vec<u8> = if th { (0..=255).collect() } else { vec![0, 1, 70, 169, 170, 171, 255] };
+        // (quick: both sides of the response-buffer threshold 170 and of the request-buffer threshold around 100)
+        let ss: Vec<u8> = if th { (0..=255).collect() } else { vec![0, 1, 70, 98, 99, 100, 101, 102, 103, 169, 170, 171, 255] };
         for s in ss {
             jobs.push(Job::Udp(uring, 30, s, false));
+            if th || (98..=103).contains(&s) {
+                jobs.push(Job::Udp(uring, 30, s, true));
+            }
         }
     }
     jobs.push(Job::Http(50, 100, true, true));
